@@ -172,13 +172,14 @@ type produced struct {
 }
 
 type rig struct {
-	ctx    context.Context
-	cancel context.CancelFunc
-	clk    *clock.Mock
-	epoch  time.Time
-	mn     mocknetwork.Mocknet
-	rng    *rand.Rand
-	gen    *certGen
+	localAny bool // local puts also of certificates the polled server does not hold
+	ctx      context.Context
+	cancel   context.CancelFunc
+	clk      *clock.Mock
+	epoch    time.Time
+	mn       mocknetwork.Mocknet
+	rng      *rand.Rand
+	gen      *certGen
 
 	clientHost  host.Host
 	clientStore *certstore.Store
@@ -404,9 +405,12 @@ func (r *rig) handleGate(ev *gateEv) error {
 			return err
 		}
 		if act == actServe && r.localPut != nil {
-			if nx := r.storeNext(); int(nx) < s.have && r.localPut(ev.srv) {
-				// "GPBFT finished the instance locally while we were asking": the server will also
-				// return this certificate, so the poller ends the round caught up with the store.
+			if nx := r.storeNext(); (int(nx) < s.have || (r.localAny && int(nx) < len(r.prod))) && r.localPut(ev.srv) {
+				// "GPBFT finished the instance locally while we were asking". If this server holds the
+				// certificate it returns it as well; with localAny (progress phase only) a lagging server
+				// may be the one being asked: the certificate then reaches the poller only through the
+				// catch-up of the next Poll of this round (rounds that end with the poller behind the
+				// store are not judged).
 				if err := r.clientStore.Put(r.ctx, r.gen.get(int(nx))); err != nil {
 					return err
 				}
